@@ -1,6 +1,7 @@
 package main
 
 import (
+	"fmt"
 	"strings"
 )
 
@@ -12,7 +13,7 @@ import (
 var (
 	roots     = []string{"/users/", "/posts/", "/u/", "/pages/", "/api/", "/s/", "/", "/a/b/", "/users/me/", "/posts/author/"}
 	bareRoots = []string{"abc/", "s-", "top.", "h"}
-	litLeaf   = []string{"a", "b", "c", "d", "e", "f", "g", "ab", "abc", "ac", "author", "new", "me", "log", "posts", "emails", "profile", "h.html", "m-n"}
+	litLeaf   = []string{"a", "b", "c", "d", "e", "f", "g", "ab", "abc", "ac", "author", "new", "me", "log", "posts", "emails", "profile", "h.html", "m-n", "caf\u00e9", "\u65e5\u672c"}
 	tok1      = []string{`{k:qx|zw}`, `{-k:qx|zw}`, `{id}`, `{idx}`, `{name}`, `{-ign}`, `{id:\d+}`, `{uid:\d+}`, `{w:[a-z]+}`, `{id:digit}`, `{w:word}`, `{x:any}`, `{-n:\d+}`, `{-g:digit}`, `{n:[a-z]+}`}
 	tok2      = []string{`{-alt:qx|zw}`, `{action}`, `{page:\d+}`, `{page:digit}`, `{path}`, `{-skip}`, `{sub:[a-z]+}`, `{act:word}`, `{pg:\d*}`, `{actn}`}
 	tails     = []string{"", "", "/", "/log", "/posts", ".html", "-x", "/a", "/ab", "/ac", "/author", "/emails", "_m", "/log/", ".htm"}
@@ -88,6 +89,22 @@ func GenPool(r *Rng, n int, ics []string) []string {
 			k--
 		}
 		add(root + pick(r, tok1) + pick(r, tails))
+	}
+	// rare shapes: a pattern with more parameters than a pooled context may keep (30), a very long
+	// literal segment, a deep chain of parameters
+	if r.Pct(6) {
+		var sb strings.Builder
+		sb.WriteString(rs[0] + "m")
+		for i := 0; i < 33; i++ {
+			fmt.Fprintf(&sb, "/{a%d}", i)
+		}
+		add(sb.String())
+	}
+	if r.Pct(5) {
+		add(rs[0] + strings.Repeat("longsegment", pick(r, []int{30, 300})) + "/" + pick(r, tok1))
+	}
+	if r.Pct(8) {
+		add(rs[0] + "deep/{id}/a/{name}/b/{uid:\\d+}/c/{action}/d")
 	}
 	for tries := 0; len(pool) < n && tries < 200; tries++ {
 		root := pick(r, rs)
